@@ -12,8 +12,11 @@ for e in rf_accept.ENTRIES:
     b = resolve_fn(prog, e)
     reg = rf_accept.acceptance_region(ctx, 'prod-all', b.path)
     out[b.path] = sorted([a, c, v] for (a, c), v in (reg or {}).items())
+    out.setdefault('__params__', {})[b.path] = [b.local_name(k) for k in range(1, b.arg_count + 1)]
 json.dump(out, open(rf_accept.TABLE_FILE, 'w'), indent=1)
 for k, v in out.items():
+    if k.startswith('__'):
+        continue
     print(k.split('::')[-1], len(v))
     for a, c, val in v:
         print('    %s - %s <= %d' % (a, c, val))
